@@ -106,7 +106,7 @@ class Ctx:
             # trivially true: still counted (it is an obligation generated from the code)
             self.obl.append(Obligation(name, [], z3.BoolVal(True), kind, list(self.prefix[:self.pos]), note))
             return
-        self.obl.append(Obligation(name, list(self.pc), goal, kind, list(self.prefix[:self.pos]), note))
+        self.obl.append(Obligation(name, list(self.pc), _pointwise(goal), kind, list(self.prefix[:self.pos]), note))
         self.assume(goal, goal=True)     # after asserting, may assume
 
     def feasible(self, extra):
@@ -249,6 +249,29 @@ def _linearize(e):
                 r = e
     _LIN_CACHE[key] = (r, e)
     return r
+
+
+_PW = [0]
+
+
+def _pointwise(e):
+    """(A == B) on array-sorted terms  ->  ForAll t. A[t] == B[t]   (extensionality, an equivalence).  Applied to GOALS only:
+    z3 proves the pointwise form of vector equalities between lambda terms far more reliably than the array equality itself."""
+    if not z3.is_app(e) or e.sort() != B:
+        return e
+    k = e.decl().kind()
+    if k == z3.Z3_OP_EQ and isinstance(e.arg(0).sort(), z3.ArraySortRef):
+        a, b = e.arg(0), e.arg(1)
+        _PW[0] += 1
+        t = z3.Const('ext!%d' % _PW[0], a.sort().domain())
+        return z3.ForAll([t], a[t] == b[t])
+    if k in (z3.Z3_OP_AND, z3.Z3_OP_OR, z3.Z3_OP_NOT, z3.Z3_OP_IMPLIES, z3.Z3_OP_ITE, z3.Z3_OP_EQ, z3.Z3_OP_IFF, z3.Z3_OP_XOR) and e.num_args() > 0:
+        ch = [_pointwise(c) for c in e.children()]
+        try:
+            return e.decl()(*ch)
+        except z3.Z3Exception:
+            return e
+    return e
 
 
 def _has_quant(e):
